@@ -165,3 +165,21 @@ func TestVerifC12_Retransmit(t *testing.T) {
 		})
 	})
 }
+
+// TestVerifC05_ViaRetry: packets emitted through the retrying client (first, deferred and
+// re-transmitted requests) are well-formed and carry exactly the submitted fields.
+func TestVerifC05_ViaRetry(t *testing.T) {
+	vRun(t, "C05", vOpts{CurFile: true, ReplayReps: 10}, func(rt *rapid.T) e4Case {
+		c := e4GenCase(rt, e4OptsC12)
+		for i := range c.Steps {
+			if c.Steps[i].Kind == "pub" && c.Steps[i].QoS > 0 && rapid.IntRange(0, 3).Draw(rt, "fixID") == 0 {
+				c.Steps[i].ID = 40000 + c.Steps[i].Idx
+			}
+		}
+		return c
+	}, func(tb rapid.TB, c e4Case) {
+		e4Check(tb, "C05", c, e4OracleC05, func(r *e4Result) (bool, []string) {
+			return r.Stats.TotalRetries > 0, []string{"via-retry-client"}
+		})
+	})
+}
